@@ -1,6 +1,8 @@
 import SigHook.Model.RegistrySeq
 import SigHook.Model.Default
 import SigHook.Model.Origin
+import SigHook.Model.HalfLock
+import SigHook.Gen.Orderings
 import SigHook.Gen.Consts
 import SigHook.Model.Env
 /-!
@@ -117,6 +119,85 @@ def originStep (_ : Unit) (line : String) : Unit × String :=
     | _, _, _, _ => ((), "bad-op")
   | _ => ((), "bad-op")
 
+/-! ### half-lock step machine -/
+
+def ordOf (file fn : String) (ordinal : Nat) : String :=
+  match Gen.orderings.find? (fun r => r.1 == file && r.2.1 == fn && r.2.2.1 == ordinal) with
+  | some r => "/".intercalate (r.2.2.2.2.map Ord.toString)
+  | none => "?"
+
+def hlFile := "signal-hook-registry/src/half_lock.rs"
+
+def hlSite (fn : String) (k : Nat) : String := s!" @{fn}#{k}:{ordOf hlFile fn k}"
+
+/-- site label of the operation a thread at `pc` performs next -/
+def hlSiteOf (pc : HalfLock.Pc) (nextIsRead : Bool) : String :=
+  match pc with
+  | .idle => if nextIsRead then hlSite "read" 1 else ""
+  | .rInc .. => hlSite "read" 2
+  | .rData .. => hlSite "read" 3
+  | .rUse _ _ 0 => hlSite "drop" 1
+  | .rUse .. => ""
+  | .wLoad .. => hlSite "write" 1
+  | .wSwap .. => hlSite "store" 1
+  | .wSeen0 .. | .wSeen1 .. | .wLoop0 .. | .wLoop1 .. => hlSite "update_seen" 1
+  | .wFlip .. => hlSite "write_barrier" 1
+  | _ => ""
+
+def fmtHlObs (pfx : String) : HalfLock.Obs → String
+  | .load loc v => s!"load {pfx}{loc} = {v}"
+  | .fetchAdd loc v => s!"fetch_add {pfx}{loc} = {v}"
+  | .fetchSub loc v => s!"fetch_sub {pfx}{loc} = {v}"
+  | .swap loc n o => s!"swap {pfx}{loc} {n} = {o}"
+  | .mutexLock => s!"mutex_lock {pfx}mutex"
+  | .mutexUnlock => s!"mutex_unlock {pfx}mutex"
+  | .alloc i => s!"alloc {i}"
+  | .free i => s!"free {i}"
+  | .spin => "spin"
+  | .yield => "yield"
+  | .use i => s!"use {i}"
+
+structure HlDrv where
+  scripts : Array (List HalfLock.Cmd) := #[]
+  out : Array String := #[]
+
+def hlAddCmd (d : HlDrv) (t : Nat) (c : HalfLock.Cmd) : HlDrv :=
+  let scripts := if d.scripts.size ≤ t then d.scripts ++ Array.replicate (t + 1 - d.scripts.size) [] else d.scripts
+  { d with scripts := scripts.modify t (· ++ [c]) }
+
+def hlRun (d : HlDrv) (sched : List Nat) : List String := Id.run do
+  let mut s := HalfLock.Sys.init d.scripts.toList
+  let mut lines : Array String := #[]
+  for t in sched do
+    let site := match s.threads[t]? with
+      | some th => hlSiteOf th.pc (match th.script with | .read _ :: _ => true | _ => false)
+      | none => ""
+    match HalfLock.step Gen.YIELD_EVERY s t with
+    | none =>
+      lines := lines.push s!"t{t} NOT-ENABLED"
+      break
+    | some (s', o) =>
+      lines := lines.push s!"t{t} {fmtHlObs "" o}{site}"
+      s := s'
+  let done := s.threads.all (fun th => th.pc == .idle && th.script.isEmpty)
+  lines := lines.push (if done then "END done" else "END unfinished")
+  return lines.toList
+
+def hlStep (d : HlDrv) (line : String) : HlDrv × String :=
+  match line.trimAscii.toString.splitOn " " with
+  | [t, "read", n] => match (t.drop 1).toString.toNat?, n.toNat? with
+    | some t, some n => (hlAddCmd d t (.read n), "")
+    | _, _ => (d, "bad-op")
+  | [t, "write", b] => match (t.drop 1).toString.toNat? with
+    | some t => (hlAddCmd d t (.write (b == "1")), "")
+    | none => (d, "bad-op")
+  | "schedule" :: rest =>
+    let sched := rest.filterMap (·.toNat?)
+    (d, "\n".intercalate (hlRun d sched))
+  | ["seed", _] | ["maxsteps", _] => (d, "")
+  | ["---"] => ({}, "---")
+  | _ => (d, "bad-op")
+
 partial def loop {σ} (h : IO.FS.Stream) (out : IO.FS.Stream) (st : σ) (f : σ → String → σ × String) :
     IO Unit := do
   let line ← h.getLine
@@ -125,7 +206,7 @@ partial def loop {σ} (h : IO.FS.Stream) (out : IO.FS.Stream) (st : σ) (f : σ 
     loop h out st f
   else
     let (st', o) := f st line
-    out.putStrLn o
+    if !o.isEmpty then out.putStrLn o
     loop h out st' f
 
 def main (args : List String) : IO UInt32 := do
@@ -135,4 +216,5 @@ def main (args : List String) : IO UInt32 := do
   | ["registry"] => loop stdin stdout ({} : RegDrv) regStep; return 0
   | ["defaults"] => loop stdin stdout () defaultsStep; return 0
   | ["origin"] => loop stdin stdout () originStep; return 0
+  | ["halflock"] => loop stdin stdout ({} : HlDrv) hlStep; return 0
   | _ => IO.eprintln "usage: driver registry"; return 2
